@@ -26,7 +26,7 @@ def run(ctx):
     pool = runlib.program_pool(ctx, n, n_unknown=ctx.scale(40, 300), flags_for_guards=(0, FLAG["NEW_COST_MODEL"]))
     base, var = [], []
     for p, e, tag in pool:
-        f = gen_prog.random_flags(r, 0.15)
+        f = runlib.pick_flags(r, tag, 0.15)
         m = r.choice([0, 0, 11000000000, r.randrange(1, 10 ** 6)])
         l0 = run_line(p, e, f=f, m=m)
         for _ in range(r.choice([1, 2])):
